@@ -602,6 +602,19 @@ def run_cli_item(item, col, tier):
         base = cli_thetas(model, rows, tmp, "b")
         col.evaluations += 1
         col.outcome("cli", model, idx, digest(base))
+        # the command trains on exactly what the library trains on (same file, same seed): in particular on the screen's OWN ids,
+        # also when a sample or a condition that sorts early occurs only behind the mask
+        loaded = Screen.load_h5(os.path.join(tmp, "inb.h5"))
+        lib_model = make_model(model, loaded)
+        lib_model.add_observations(loaded.subset_observed())
+        np.random.seed(12345)
+        want = theta_bytes(sampling.sample(lib_model, ThetaHolder(n_thetas=2), seed=5, n_chains=1, chain_index=0, n_burnin=1, thin=1, progress_bar=False))
+        col.evaluations += 1
+        col.transitions += 1
+        if digest(want) != digest(base):
+            col.violation(f"C04|cli-trains-on-other-data|{model}", f"train_model --seed 5 on screen {idx} and the library (same file, same seed, model given the "
+                                                                    f"observed rows with the screen's own ids) learn different posterior samples",
+                          {"kind": "cli", "model": model, "screen": idx, "value": 0.5})
         for v in (float("nan"), -1.0, 1e300, 0.0):
             var = {i: v for i in masked}
             case = {"kind": "cli", "model": model, "screen": idx, "value": v}
